@@ -267,6 +267,15 @@ func runFnCase(c *Ctx, m string, name string, args []*variants.Variant) {
 					return
 				}
 			}
+			// floats: the IEEE absolute value, bit for bit (the sign of zero and of NaN cleared)
+			if a.Type() == variants.Double && res.Type() == variants.Double && math.Float64bits(res.AsDouble()) != math.Float64bits(math.Abs(a.AsDouble())) && !(a.AsDouble() != a.AsDouble()) {
+				c.fail(Failure{Kind: "oracle", Op: op, Impl: impl, Note: fmt.Sprintf("Abs(%v) must be %v with a cleared sign bit", a.AsDouble(), math.Abs(a.AsDouble()))})
+				return
+			}
+			if a.Type() == variants.Float && res.Type() == variants.Float && math.Float32bits(res.AsFloat()) != math.Float32bits(float32(math.Abs(float64(a.AsFloat())))) && !(a.AsFloat() != a.AsFloat()) {
+				c.fail(Failure{Kind: "oracle", Op: op, Impl: impl, Note: fmt.Sprintf("Abs(%v) must be %v with a cleared sign bit", a.AsFloat(), math.Abs(float64(a.AsFloat())))})
+				return
+			}
 		case "Min", "Max", "Sum":
 			// left fold with the manager's own More / Less / Add
 			ops := mgrOf(m)
@@ -484,6 +493,10 @@ func propC08(c *Ctx) {
 			runFnCase(c, "u", "Contains", []*variants.Variant{vStr(a), vStr(b)})
 			runFnCase(c, "s", "contains", []*variants.Variant{vStr(a), vStr(b)})
 		}
+	}
+	for _, z := range []*variants.Variant{vDouble(math.Copysign(0, -1)), vFloat(float32(math.Copysign(0, -1))), vDouble(0), vDouble(-2.5), vFloat(-1.5), vDouble(math.Inf(-1))} {
+		runFnCase(c, "u", "Abs", []*variants.Variant{z})
+		runFnCase(c, "s", "abs", []*variants.Variant{z})
 	}
 	for _, a := range all {
 		runFnCase(c, "u", "Empty", []*variants.Variant{a})
@@ -969,6 +982,59 @@ func propOperandOrderEffects(c *Ctx) {
 			r, err := calc.EvaluateUsingVariablesAndFunctions(vars, fns)
 			if err != nil || r.Type() != variants.Integer || r.AsInteger() != sc.want {
 				note = fmt.Sprintf("%q with n = 1 and NEXT() assigning n + 1 to n (and returning 0): evaluating the tree in written order gives %d, the calculator gives %s", sc.expr, sc.want, outcome(r, err))
+			}
+			return ""
+		})
+		if st != "" || note != "" {
+			c.fail(Failure{Kind: "oracle", Op: op, Impl: st, Note: note})
+		}
+	}
+	// a function that REPLACES the variable's entry in the collection (remove + add); a function that assigns its ARGUMENT in
+	// place (every literal of a program is a value of its own: writing into one changes no other, here or in another calculator)
+	for _, sc := range []struct{ expr, want string }{{"x + Rebind() + x", "ok i101"}, {"Rebind() + x * 2", "ok i200"}, {"x * 2 + Rebind()", "ok i2"},
+		{"Flip(TRUE) = TRUE", "ok b0"}, {"Flip(TRUE) OR FALSE", "ok b0"}, {"Flip(FALSE) AND TRUE", "ok b1"}, {"Bump(1) + 1", "ok i12"}, {"Bump('a') + 'a'", "ok s98.97"}} {
+		op := "ordereff " + strRunes(sc.expr)
+		c.record(op, true)
+		c.count("operand-order-effects")
+		note := ""
+		st := safeCall(func() string {
+			calc := calculator.NewExpressionCalculator()
+			calc.SetAutoVariables(false)
+			vars := variables.NewVariableCollection()
+			vars.Add(variables.NewVariable("x", variants.VariantFromInteger(1)))
+			fns := functions.NewDefaultFunctionCollection()
+			fns.Add(functions.NewDelegatedFunction("Rebind", func(p []*variants.Variant, o variants.IVariantOperations) (*variants.Variant, error) {
+				vars.RemoveByName("x")
+				vars.Add(variables.NewVariable("x", variants.VariantFromInteger(100)))
+				return variants.VariantFromInteger(0), nil
+			}))
+			fns.Add(functions.NewDelegatedFunction("Flip", func(p []*variants.Variant, o variants.IVariantOperations) (*variants.Variant, error) {
+				p[0].SetAsBoolean(!p[0].AsBoolean())
+				return p[0], nil
+			}))
+			fns.Add(functions.NewDelegatedFunction("Bump", func(p []*variants.Variant, o variants.IVariantOperations) (*variants.Variant, error) {
+				if p[0].Type() == variants.Integer {
+					p[0].SetAsInteger(p[0].AsInteger() + 10)
+				} else {
+					p[0].SetAsString("b")
+				}
+				return p[0], nil
+			}))
+			if err := calc.SetExpression(sc.expr); err != nil {
+				return "parse error " + errCode(err)
+			}
+			if got := outcome(calc.EvaluateUsingVariablesAndFunctions(vars, fns)); got != sc.want {
+				note = fmt.Sprintf("%q (x = 1; Rebind() replaces the entry x by one holding 100; Flip / Bump assign their argument in place): written-order evaluation of the tree gives %s, the calculator gives %s", sc.expr, sc.want, got)
+				return ""
+			}
+			// literals of OTHER programs and calculators are untouched
+			for _, e := range [][2]string{{"TRUE AND (1 < 2)", "ok b1"}, {"FALSE OR 1 > 2", "ok b0"}, {"1 + 1", "ok i2"}, {"'a' + 'a'", "ok s97.97"}} {
+				other := calculator.NewExpressionCalculator()
+				other.SetExpression(e[0])
+				if got := outcome(other.Evaluate()); got != e[1] {
+					note = fmt.Sprintf("after %q was evaluated (a user function wrote into its argument), a NEW calculator evaluates %q to %s instead of %s", sc.expr, e[0], got, e[1])
+					return ""
+				}
 			}
 			return ""
 		})
